@@ -169,9 +169,10 @@ def subprocess_job(item):
     return part
 
 
-def all_cases():
+def all_cases(tier="quick"):
     cases = []
-    lists = [list(p) for n in range(0, 4) for p in itertools.product(KINDS, repeat=n)]
+    thorough = tier == "thorough"
+    lists = [list(p) for n in range(0, 5 if thorough else 4) for p in itertools.product(KINDS, repeat=n)]
     for cid in ("valid", "rejected", "malformed", "missing"):
         for files in lists:
             for until in UNTILS:
@@ -179,12 +180,12 @@ def all_cases():
                     continue
                 cases.append({"cid": cid, "files": files, "until": until})
     for cid in ("header1", "header2"):  # the limit counts header rows, on the command line as in the API
-        for files in [list(p) for n in range(0, 3) for p in itertools.product(KINDS, repeat=n)]:
-            for until in UNTILS + [4]:
+        for files in [list(p) for n in range(0, 4 if thorough else 3) for p in itertools.product(KINDS, repeat=n)]:
+            for until in UNTILS + [4] + ([5, 6] if thorough else []):
                 cases.append({"cid": cid, "files": files, "until": until})
     for cid in ("ods", "excel"):
-        for files in [list(p) for n in range(0, 3) for p in itertools.product(KINDS, repeat=n)]:
-            for until in (None, 0, 2):
+        for files in [list(p) for n in range(0, 4 if thorough else 3) for p in itertools.product(KINDS, repeat=n)]:
+            for until in (UNTILS if thorough else (None, 0, 2)):
                 cases.append({"cid": cid, "files": files, "until": until})
     faults = [[], ["--bogus"], ["--until", "-2", "cid.csv"], ["--until", "x", "cid.csv"], ["--until"], ["--log", "loud", "cid.csv"], ["--until", "1.5", "cid.csv"], ["-x", "y"]]
     for argv in faults:
@@ -193,16 +194,16 @@ def all_cases():
 
 
 def run(ctx):
-    cases = all_cases()
+    cases = all_cases(ctx.tier)
     ctx.pmap(MOD, "work", engine.chunks(cases, 150), label="C18")
     subset = []
     if ctx.tier == "thorough":
-        subset = [c for c in cases if "argv" in c] + [c for c in cases if "cid" in c and len(c["files"]) <= 2 and c["until"] in (None, 0)][::9][:52]
+        subset = [c for c in cases if "argv" in c] + [c for c in cases if "cid" in c and len(c["files"]) <= 2 and c["until"] in (None, 0)][::9][:120]
     else:
         subset = [{"cid": "valid", "files": ["accepted", "sibling"], "until": None}, {"cid": "valid", "files": ["unique", "accepted"], "until": None},
                   {"cid": "valid", "files": ["accepted", "missing"], "until": None}, {"argv": []}, {"cid": "malformed", "files": ["accepted"], "until": None}]
     ctx.pmap(MOD, "subprocess_job", engine.chunks(subset, 4), label="C18 subprocess")
-    ctx.bound = {"in-process cases": len(cases), "subprocess cases": len(subset), "file lists": "every list of 0..3 data files in every order over 6 kinds (259 lists)", "until": UNTILS,
+    ctx.bound = {"in-process cases": len(cases), "subprocess cases": len(subset), "file lists": "every list of 0..%d data files in every order over 6 kinds" % (4 if ctx.tier == "thorough" else 3), "until": UNTILS,
                  "CIDs": ["valid", "valid with 1 or 2 header rows", "stored as ODS / Excel", "rejected by a rule", "malformed CSV container", "missing"]}
     ctx.rule = ("full product; oracle: 2 for argument faults, 3 if the CID or a named data file cannot be read, else 1 if the CID is rejected or any file is rejected by the API on a fresh CID (differential), else 0; "
                 "non-trivial = case whose expected exit code is not 0; states = CID kinds")
